@@ -137,6 +137,7 @@ func main() {
 	genActivate()
 	genManagerDo()
 	genLastMod()
+	genDispatch()
 	genBounds()
 	genMsgBounds()
 	if forProp == "" || forProp == "C15" {
